@@ -1,6 +1,6 @@
 (* C08 — lemmas about the pieces: translator ties, names, cuts, the delegation cache,
    searchCache, entry lifetimes. *)
-From Sdns Require Import Common.Base Gen.C08 C08.Model.
+From Sdns Require Import Common.Base Gen.C08 C08.Model Common.GoList.
 Open Scope Z_scope.
 
 (* ------------------------------------------------------------ translator ties *)
@@ -421,3 +421,66 @@ Proof. intros [k s t [c'|] l] c H; cbn in *; inversion H; subst. lia. Qed.
 (* the 5 s floor never lifts an entry past its cut *)
 Lemma floor_does_not_beat_cut : forall key now msg_ttl c lin, ae_end (mk_ae key now (admit_ttl msg_ttl) (Some c) lin) <= c.
 Proof. intros. cbn. lia. Qed.
+
+(* ------------------------------------------------------------ resolver.minRRSetTTL
+
+   translated from the source on every run (range loop over []dns.RR, the interface as the sum type I_RR, rr.Header()
+   exact for every dynamic type): it computes the model's [rrset_min_ttl] of the records' TTLs *)
+Definition rr_ttl (rr : I_RR) : N := T_RR_Header_Ttl (I_RR_Header rr).
+
+Fixpoint min_walk (i : nat) (l : list I_RR) (m : N) : N :=
+  match l with
+  | [] => m
+  | rr :: r => min_walk (S i) r (if (Nat.eqb i 0) || (rr_ttl rr <? m)%N then rr_ttl rr else m)
+  end.
+
+Lemma go_idx_middle : forall (pre : list I_RR) rr suf, go_idx I_RR_nil (pre ++ rr :: suf) (Z.of_nat (length pre)) = rr.
+Proof.
+  intros. rewrite go_idx_nth by lia. rewrite Nat2Z.id. apply nth_middle.
+Qed.
+
+Lemma min_loop_suffix : forall suf pre lf rrs m, (length suf < lf)%nat ->
+  go_minRRSetTTL_loop1 (pre ++ suf) lf (Z.of_nat (length pre)) rrs m = (GoNext, (rrs, min_walk (length pre) suf m)).
+Proof.
+  induction suf as [|rr r IH]; intros pre lf rrs m Hlf; (destruct lf as [|lf]; [cbn in Hlf; lia|]); cbn [go_minRRSetTTL_loop1].
+  - rewrite app_nil_r. unfold go_len. rewrite Z.ltb_irrefl. reflexivity.
+  - assert (Hlt : Z.of_nat (length pre) <? go_len (pre ++ rr :: r) = true).
+    { apply Z.ltb_lt. unfold go_len. rewrite app_length. cbn [length]. lia. }
+    rewrite Hlt. rewrite go_idx_middle. cbn [min_walk]. fold (rr_ttl rr).
+    assert (E : Z.eqb (Z.of_nat (length pre)) 0 = Nat.eqb (length pre) 0).
+    { destruct (length pre); cbn; reflexivity. }
+    rewrite E.
+    replace (pre ++ rr :: r) with ((pre ++ [rr]) ++ r) by (rewrite <- app_assoc; reflexivity).
+    replace (Z.of_nat (length pre) + 1) with (Z.of_nat (length (pre ++ [rr]))) by (rewrite app_length; cbn [length]; lia).
+    replace (S (length pre)) with (length (pre ++ [rr])) by (rewrite app_length; cbn [length]; lia).
+    cbn [length] in Hlf.
+    destruct (Nat.eqb (length pre) 0 || (rr_ttl rr <? m)%N); apply IH; lia.
+Qed.
+
+Lemma min_walk_pos : forall l i m, (0 < i)%nat -> min_walk i l m = fold_left N.min (map rr_ttl l) m.
+Proof.
+  induction l as [|rr r IH]; intros i m Hi; cbn [min_walk map fold_left]; [reflexivity|].
+  destruct i as [|i]; [lia|]. cbn [Nat.eqb orb]. rewrite IH by lia. f_equal.
+  destruct (N.ltb_spec (rr_ttl rr) m); lia.
+Qed.
+
+Lemma fold_min_of_N : forall l m, Z.of_N (fold_left N.min l m) = fold_left Z.min (map Z.of_N l) (Z.of_N m).
+Proof. induction l as [|x r IH]; intros m; cbn; [reflexivity|]. rewrite IH. f_equal. lia. Qed.
+
+Lemma gen_minRRSetTTL : forall rrs,
+  Z.of_N (go_minRRSetTTL rrs) = rrset_min_ttl (map (fun rr => Z.of_N (rr_ttl rr)) rrs).
+Proof.
+  intro rrs. unfold go_minRRSetTTL.
+  pose proof (min_loop_suffix rrs [] (S (length rrs)) rrs 0%N (Nat.lt_succ_diag_r _)) as H.
+  cbn [app length Z.of_nat] in H. rewrite H.
+  destruct rrs as [|rr r]; [reflexivity|].
+  cbn [min_walk Nat.eqb orb map rrset_min_ttl]. rewrite min_walk_pos by lia. rewrite fold_min_of_N.
+  rewrite map_map. reflexivity.
+Qed.
+
+(* non-vacuity: a DS set of three records of different dynamic types (a DS, an NS, one outside the list) *)
+Example ex_minRRSetTTL :
+  let h t := mk_T_RR_Header [] 43 1 t 0 in
+  go_minRRSetTTL [I_RR_of_DS (mk_T_DS (h 600%N) 1 13 2 []); I_RR_of_NS (mk_T_NS (h 30%N) []); I_RR_other 99 (h 300%N)] = 30%N /\
+  go_minRRSetTTL [] = 0%N /\ go_minRRSetTTL [I_RR_other 7 (h 0%N); I_RR_other 7 (h 5%N)] = 0%N.
+Proof. vm_compute. repeat split. Qed.
